@@ -74,11 +74,22 @@ def _run_worker(exe, inpath, lo, hi, procs, outpath, timeout):
         return 124, out
 
 
-def run_schedules(exe, scheds, procs_of=None, workers=None, tag="run", per_timeout=120):
+MAX_STUCK = 3      # stuck runs (wall-clock watchdog) after which the remaining schedules are skipped
+
+
+def run_schedules(exe, scheds, procs_of=None, workers=None, tag="run", per_timeout=120, max_stuck=MAX_STUCK):
     """Run every schedule once.  Returns a list of result dicts aligned with
     scheds.  A result has status ok | hang | leak | crash | harness_error |
-    wall_timeout; crash results carry the tail of the worker's output."""
+    wall_timeout | skipped; crash results carry the tail of the worker's output.
+
+    Every run is bounded in wall-clock time: the harness's own watchdog
+    (DRIVE_WATCHDOG_MS, default 15 s without progress) reports a frozen
+    bubble as `hang` and leaves; the worker process as a whole is killed
+    after per_timeout (`wall_timeout`).  Each such run costs real time, so
+    after max_stuck of them the schedules not yet run are `skipped`: the
+    check stays bounded even when every schedule freezes the client."""
     workers = workers or common.NPROC
+    stuck = [0]
     d = common.build_dir("clientdrive", tag)
     inpath = os.path.join(d, "in.jsonl")
     with open(inpath, "w") as f:
@@ -97,6 +108,8 @@ def run_schedules(exe, scheds, procs_of=None, workers=None, tag="run", per_timeo
         guard = 0
         while cur < hi and guard < (hi - lo) + 2:
             guard += 1
+            if stuck[0] >= max_stuck:
+                break
             outpath = os.path.join(d, "out-%d-%d.jsonl" % (wi, cur))
             if os.path.exists(outpath):
                 os.remove(outpath)
@@ -118,8 +131,12 @@ def run_schedules(exe, scheds, procs_of=None, workers=None, tag="run", per_timeo
             # the worker died or left early while running schedule `begun`
             if begun is None:
                 begun = cur
+            if results[begun] is not None and is_stuck(results[begun]):
+                stuck[0] += 1
             if results[begun] is None:
                 status = "wall_timeout" if rc == 124 else "crash"
+                if rc == 124 or "test timed out" in out:
+                    stuck[0] += 1
                 results[begun] = {"id": scheds[begun].get("id"), "idx": begun, "status": status,
                                   "why": _crash_reason(out), "obs": [], "stacks": out[-6000:],
                                   "gomaxprocs": procs, "rc": rc}
@@ -130,9 +147,23 @@ def run_schedules(exe, scheds, procs_of=None, workers=None, tag="run", per_timeo
         list(ex.map(work, ranges))
     for i in range(n):
         if results[i] is None:
-            results[i] = {"id": scheds[i].get("id"), "idx": i, "status": "harness_error",
-                          "why": "no result produced", "obs": []}
+            results[i] = {"id": scheds[i].get("id"), "idx": i, "status": "skipped" if stuck[0] >= max_stuck else "harness_error",
+                          "why": "not run: %d earlier runs froze" % stuck[0] if stuck[0] >= max_stuck else "no result produced", "obs": []}
+        elif results[i]["status"] == "wall_timeout":
+            # the worker had to be killed from outside: the same finding as the watchdog's
+            results[i]["status"] = "hang"
+            results[i]["why"] = "the worker process did not finish within %d s of wall-clock time | %s" % (
+                per_timeout, stuck_frames(results[i].get("stacks") or ""))
     return results
+
+
+def is_stuck(res):
+    return res.get("status") == "hang" and (res.get("why") or "").startswith(("no progress for", "the worker process did not finish"))
+
+
+def stuck_frames(text):
+    fr = sorted(set(re.findall(r"nexus/v3/client\.([A-Za-z0-9_.()*]+)\(", text)))
+    return ";".join(fr[:6]) or "?"
 
 
 _PANIC = re.compile(r"^(panic: .*|fatal error: .*)$", re.M)
@@ -165,6 +196,8 @@ def hang_signature(res):
         kinds.append("close-never-returns")
     if "Done never signalled" in head:
         kinds.append("done-never-signalled")
+    if head.startswith(("no progress for", "the worker process did not finish")):
+        kinds.append("client-frozen")
     return "%s: %s: %s" % (res.get("status"), ",".join(kinds) or "goroutines-left", tail)
 
 
